@@ -522,7 +522,7 @@ Section diag.
         if ai =? 31 then
           (* parseIndefiniteStringDiagnosticNode: Advance(1), chunks until 0xff *)
           _ <- (if Nat.ltb (length data) (pos + 1) then Err else Val tt) ;;
-          r <- diag_indef f data (S depth) (pos + 1) 1 ;;
+          r <- diag_indef f data (S depth) (pos + 1) 1 mt ;;
           let '(kids, e) := r in
           _ <- slice data pos e ;; Val (DN pos (e - pos) kids, e)
         else prim
@@ -531,7 +531,7 @@ Section diag.
         let '(len, hl, indef) := h in
         _ <- (if Nat.ltb (length data) (pos + hl) then Err else Val tt) ;;      (* dec.Advance(headerLen) *)
         let per := if mt =? 160 then 2%nat else 1%nat in
-        r <- (if (indef : bool) then diag_indef f data (S depth) (pos + hl) per
+        r <- (if (indef : bool) then diag_indef f data (S depth) (pos + hl) per 0
               else diag_count f data (S depth) (pos + hl) (len * N.of_nat per)) ;;
         let '(kids, e) := r in
         _ <- slice data pos e ;; Val (DN pos (e - pos) kids, e)            (* data[start:end] *)
@@ -555,8 +555,9 @@ Section diag.
       r2 <- diag_count f data depth p1 (k - 1) ;;
       let '(kids, e) := r2 in Val (kid :: kids, e)
     end
-  (* for { pos >= len -> error; data[pos] == 0xff -> Advance(1); break; per children } *)
-  with diag_indef (fuel : nat) (data : bytes) (depth pos : nat) (per : nat) {struct fuel} : out (list dnode * nat) :=
+  (* for { pos >= len -> error; data[pos] == 0xff -> Advance(1); break; per children }
+     (parseArray/Map/IndefiniteString DiagnosticNode; chunk <> 0: the string variant) *)
+  with diag_indef (fuel : nat) (data : bytes) (depth pos : nat) (per : nat) (chunk : N) {struct fuel} : out (list dnode * nat) :=
     match fuel with
     | O => OutOfFuel
     | S f =>
@@ -567,11 +568,13 @@ Section diag.
       else
         r <- diag_node f data depth pos ;;
         let '(k1, p1) := r in
+        (* chunks of an indefinite string: definite strings of the same major type *)
+        _ <- (if negb (chunk =? 0) && (negb (N.land b 224 =? chunk) || (N.land b 31 =? 31)) then Err else Val tt) ;;
         r1 <- (if Nat.eqb per 2 then
                  r' <- diag_node f data depth p1 ;; let '(k2, p2) := r' in Val ([k1; k2], p2)
                else Val ([k1], p1)) ;;
         let '(ks, p2) := r1 in
-        r2 <- diag_indef f data depth p2 per ;;
+        r2 <- diag_indef f data depth p2 per chunk ;;
         let '(kids, e) := r2 in Val (ks ++ kids, e)
     end.
 
